@@ -571,6 +571,9 @@ class StateFlow(object):
                 res = AS(res.D, res.F - drop, res.P, res.E)
         fr.store_log.extend(sub.store_log)
         self.memo[mkey] = (res, list(sub.store_log))
+        if res is not None and self.recording:
+            k2 = (target.mod, name)
+            self.exit_E[k2] = res.E if k2 not in self.exit_E else (self.exit_E[k2] & res.E)
         return res
 
     def closure_nognz(self, st):
@@ -992,6 +995,7 @@ class StateFlow(object):
         """roots: list of 'module:function' executed in sequence on one state,
         starting from the empty dictionary."""
         self.memo = {}
+        self.exit_E = {}
         self.epoch += 1
         self._blocked_cache = None
         self.reads, self.divs, self.dyn = [], [], []
